@@ -85,7 +85,12 @@ def check_key(ctx, curve, dom, d, named, lzhint=None):
     for tag in ("d", "x", "y"):
         if tag in lz.split("+"):
             ctx.case("lz." + tag, key=cname)
-    sk = ecdsa.SigningKey.from_secret_exponent(d, curve, hashlib.sha256)
+    try:
+        sk = ecdsa.SigningKey.from_secret_exponent(d, curve, hashlib.sha256)
+    except Exception as ex:
+        ctx.case("sk.raw", key="%s|%s" % (cname, lz))
+        ctx.violation("valid_key_refused", "%s: from_secret_exponent(%d) raised %s: %s (public point %r)" % (cname, d, type(ex).__name__, ex, Q), dict(curve=cname, d=d))
+        return
     vk = sk.verifying_key
     oid = tuple(curve.oid)
     d_bytes = d.to_bytes(Ln, "big")
@@ -182,6 +187,11 @@ def check_key(ctx, curve, dom, d, named, lzhint=None):
         "pkcs8_v0_no_pub": R.pkcs8(oid, R.ec_private_key(d_bytes, None, None), version=0),
         "pkcs8_v0_with_params": R.pkcs8(oid, R.ec_private_key(d_bytes, oid, pt), version=0),
         "pkcs8_ecdh_alg": R.pkcs8(oid, R.ec_private_key(d_bytes, oid, pt), version=0, alg=R.OID_ECDH),
+        # RFC 5958 optional fields after privateKey (documented as ignored by from_der)
+        "pkcs8_v0_attributes": R.pkcs8(oid, R.ec_private_key(d_bytes, None, pt), version=0,
+                                       attributes=R.enc_seq(R.enc_oid((2, 5, 29, 15)), R.enc_tlv(0x31, R.enc_bitstring(b"\x80", 7)))),
+        "pkcs8_v1_publickey": R.pkcs8(oid, R.ec_private_key(d_bytes, None, None), version=1, public_key=pt),
+        "pkcs8_v1_attrs_and_publickey": R.pkcs8(oid, R.ec_private_key(d_bytes, oid, pt), version=1, attributes=b"", public_key=pt),
     }
     for nm, blob in shapes.items():
         label = "PRIVATE KEY" if nm.startswith("pkcs8") else "EC PRIVATE KEY"
@@ -225,6 +235,28 @@ def run(ctx, name, kind, **kw):
             ds |= {v for v in (fx, fy) if v}
         for d in sorted(v for v in ds if 1 <= v < n):
             check_key(ctx, c, dom, d, True)
+        # public keys nobody knows the scalar of: x = 0 (exists when b is a square), through every public format
+        y0 = __import__("vf.ref.nt", fromlist=["x"]).sqrt_mod(dom.curve.b, dom.p)
+        if y0 is not None and y0 != 0:
+            for P0 in ((0, y0), (0, dom.p - y0)):
+                for enc in ("raw",) + PT_ENCS:
+                    blob = sec1.encode_point(dom, P0, enc)
+                    forms = [("string", blob)]
+                    if enc != "raw":
+                        forms += [("der", R.spki(tuple(c.oid), blob)), ("pem", R.pem(R.spki(tuple(c.oid), blob), "PUBLIC KEY"))]
+                    for how, data in forms:
+                        ctx.case("foreign.vk", key="%s|x0|%s|%s" % (c.name, enc, how))
+                        try:
+                            k2 = (ecdsa.VerifyingKey.from_string(data, c) if how == "string" else
+                                  ecdsa.VerifyingKey.from_der(data) if how == "der" else ecdsa.VerifyingKey.from_pem(data))
+                            ok = (k2.pubkey.point.x(), k2.pubkey.point.y()) == P0 and k2.to_string(enc) == blob
+                            ctx.check(ok, "foreign_key_loads_to_other_value", "%s: public key (0, sqrt b) via %s/%s loads to another value" % (c.name, enc, how), dict(curve=c.name, blob=data))
+                        except Exception as ex:
+                            ctx.violation("foreign_key_rejected", "%s: valid public key with x = 0 (%s via %s) rejected: %s: %s" % (c.name, enc, how, type(ex).__name__, ex), dict(curve=c.name, blob=data),
+                                          "import ecdsa\ntry:\n    print(ecdsa.VerifyingKey.%s(%r%s))\nexcept Exception as e:\n    print('library raised', type(e).__name__, e)\n" % (
+                                              {"string": "from_string", "der": "from_der", "pem": "from_pem"}[how], data, ", ecdsa.curves.%s" % c.name if how == "string" else ""))
+        else:
+            ctx.count("no_point_with_x_0_on_" + c.name)
     elif kind == "toy":
         ts = sigs.toy_prime_curves(7, 61)
         for t in ts[:: max(1, len(ts) // kw["ncurves"])][: kw["ncurves"]]:
